@@ -288,6 +288,9 @@ class NoiseObservedOnly(_UpdateRule):
 
 
 UNITS = [WSum(), WeightedValue(), ApplyOperation(), GetDim(), LinkedMaskIndependence(), NoiseObservedOnly()]
+# the Bernoulli likelihood term: weights passed through, nothing stored at an entry without weight is looked at (contract of C08)
+from contracts import c08 as _c08
+UNITS += [foreign(_c08.BernoulliNll(), "c08")]
 CALLEES = []
 ASSUMPTIONS = ["sums of IEEE values are not modelled: the IEEE configuration covers the element-wise part (weight * filled(0))",
                "personalisation end-to-end is covered by the stand-in only; NaN-ness of an observation = the uninterpreted predicate isnan(value)"]
